@@ -45,11 +45,16 @@ def build(prior):
     elif prior == "normal":
         elfi.Prior("norm", 1, 2, model=m, name="t1")
         names = ["t1"]
-    else:      # hierarchical: t2 | t1 ~ U(t1, t1 + 2)
+    elif prior == "hier":      # hierarchical: t2 | t1 ~ U(t1, t1 + 2)
         elfi.Prior("uniform", 0, 2, model=m, name="t1")
         elfi.Prior("uniform", m["t1"], 2, model=m, name="t2")
         names = ["t1", "t2"]
-    elfi.Simulator(Sim(len(names)), *[m[n] for n in names], model=m, name="sim", observed=np.array([2.0]))
+    else:      # hierarchical through the SCALE: t2 | t1 ~ U(0, t1); the child's density is undefined (nan) for t1 <= 0
+        elfi.Prior("uniform", 0, 1, model=m, name="t1")
+        elfi.Prior("uniform", 0, m["t1"], model=m, name="t2")
+        names = ["t1", "t2"]
+    obs = 0.05 if prior == "hier_scale" else 2.0       # posterior mass next to the boundary t1 = 0
+    elfi.Simulator(Sim(len(names)), *[m[n] for n in names], model=m, name="sim", observed=np.array([obs]))
     elfi.Summary(summ, m["sim"], model=m, name="S")
     elfi.Discrepancy(disc, m["S"], model=m, name="d")
     return m, names
@@ -62,7 +67,10 @@ def prior_logpdf(prior, X):
         return ss.uniform.logpdf(X[:, 0], -1, 5)
     if prior == "normal":
         return ss.norm.logpdf(X[:, 0], 1, 2)
-    return ss.uniform.logpdf(X[:, 0], 0, 2) + ss.uniform.logpdf(X[:, 1], X[:, 0], 2)
+    if prior == "hier":
+        return ss.uniform.logpdf(X[:, 0], 0, 2) + ss.uniform.logpdf(X[:, 1], X[:, 0], 2)
+    with np.errstate(all="ignore"):
+        return ss.uniform.logpdf(X[:, 0], 0, 1) + ss.uniform.logpdf(X[:, 1], 0, X[:, 0])
 
 
 def mixture_logpdf(X, means, cov, weights):
@@ -117,7 +125,7 @@ def record(sc):
                     X = np.column_stack([p.outputs[n] for n in names])
                     e = dict(ev="pop", raised="", sizes=[int(len(v)) for v in p.outputs.values()],
                              ds=[int(round(float(d) * 8)) for d in p.discrepancies], ws=[f4(w) for w in p.weights],
-                             pp=[f4(np.exp(v)) for v in prior_logpdf(sc["prior"], X)], thr_rep=int(round(float(p.threshold) * 8)),
+                             pp=[(f4(np.exp(v)) if np.isfinite(v) else 0) for v in prior_logpdf(sc["prior"], X)], thr_rep=int(round(float(p.threshold) * 8)),
                              nsim=int(p.n_sim), nb=int(counts.get(i, 0)), kind="", thr_user=0, a=0, A=1, thr_force=0,
                              lw=[], lp=[], lq=[], cov=[f4(c) for c in np.diag(np.atleast_2d(p.cov))], wvar=[f4(v) for v in wvar_def(X, p.weights)])
                     entry = call["list"][i - npop]
@@ -147,15 +155,15 @@ def record(sc):
 def scenarios(ctx):
     rnd = random.Random(ctx.seed)
     out = []
-    n_runs = 30 if ctx.quick else 300
+    n_runs = 64 if ctx.quick else 400
     for i in range(n_runs):
-        prior = ["uniform", "normal", "hier"][i % 3]
+        prior = ["uniform", "normal", "hier", "hier_scale"][i % 4]
 
         def lst(kind):
             k = rnd.randint(1, 3)
             if kind == "u":
                 start = rnd.choice([16, 12, 8])
-                return [max(2, start - 3 * j) for j in range(k)]
+                return [max(2, start - 3 * j) for j in range(k)] if prior != "hier_scale" else [max(1, 6 - 2 * j) for j in range(k)]
             return [rnd.choice([[1, 2], [1, 4], [3, 4], [1, 1]]) for _ in range(k)]
         kinds = [rnd.choice(["u", "q"])]
         if i % 2 == 1:
